@@ -704,14 +704,32 @@ struct C08Names : Monitor {
 		if (&t != w->srv || !tracking || is_raw(d.data)) return;
 		DnsMsg m; UpQuery u;
 		if (!dns_parse_strict(d.data, m).empty() || m.qd.empty() || !decode_upquery(m.qd[0].name.dotted(), w->domain, u) || u.cmd != 'd') return;
-		if (u.up_seq != seq || u.up_frag != frag || u.last) return;          // only the chunk currently tracked; a completed packet is judged by C01/C02
+		if (u.up_seq != seq || u.up_frag != frag) return;                     // only the chunk currently tracked
+		if (u.last) {
+			// the last chunk of the tracked packet: when the server holds everything before it, accepting this chunk means the packet
+			// goes out on the server's tun in this very step (a last chunk that is dropped - say because it carries a single byte -
+			// loses the packet although every name decoded to what was sent)
+			UserView v; Bytes got = peek_inpacket(u.userid);
+			bool holds = peek_user(u.userid, v) && v.in.seqno == seq && (frag == 0 ? true : v.in.fragment == frag - 1) && got.size() == off && std::equal(got.begin(), got.end(), Z.begin());
+			if (frag == 0) holds = holds || (peek_user(u.userid, v) && v.in.seqno != seq);
+			if (holds && srv_seen.insert({u.up_seq, u.up_frag}).second && z_uncompress(Z, lastchk.pkt)) { lastchk.armed = true; lastchk.written = false; lastchk.n = cur_n; lastchk.seq = seq; lastchk.frag = frag; }
+			return;
+		}
 		if (!srv_seen.insert({u.up_seq, u.up_frag}).second) return;
 		sc.armed = true; sc.uid = u.userid; sc.seq = seq; sc.frag = frag;
 		sc.want.assign(Z.begin(), Z.begin() + off + cur_n);
 	}
 
+	struct LastChk { bool armed = false, written = false; Bytes pkt; size_t n = 0; int seq = 0, frag = 0; } lastchk;
+	void on_tun_write(Task &t, const Bytes &p) override { if (&t == w->srv && lastchk.armed && p == lastchk.pkt) lastchk.written = true; }
 	void on_block(Task &t) override
 	{
+		if (&t == w->srv && lastchk.armed) {
+			lastchk.armed = false;
+			w->probes["c08.srv_last_chunk_checked"]++;
+			if (lastchk.n == 1) w->probes["c08.srv_last_chunk_of_one_byte"]++;
+			if (!lastchk.written) { char b[200]; snprintf(b, sizeof b, "the last chunk %d/%d (%zu bytes) of an upstream packet reached the server, which held everything before it, but the packet was not written to the server's tun", lastchk.seq, lastchk.frag, lastchk.n); viol("server.last_chunk", b); }
+		}
 		if (&t != w->srv || !sc.armed) return;
 		sc.armed = false;
 		UserView v;
